@@ -30,7 +30,7 @@ use std::sync::atomic::{AtomicUsize, Ordering};
 use vh::{Ctx, Rng, fnv64, mix64};
 
 const SECTION_CAP: usize = 60 * 21;
-const KINDS: [&str; 7] = ["index-long", "residency-batch", "index-short", "residency-db", "residency-container", "update-section", "dynamic-container"];
+const KINDS: [&str; 8] = ["index-long", "residency-batch", "index-short", "residency-db", "residency-container", "update-section", "dynamic-container", "index-boundary"];
 
 thread_local! {
     static LAST_PANIC: RefCell<Option<(String, String)>> = const { RefCell::new(None) };
@@ -1825,6 +1825,117 @@ fn run_dyncontainer(ctx: &Ctx, kind: &'static str, idx: usize, rng: &mut Rng) ->
 }
 
 // ===========================================================================
+// A bucket whose sorted section ends exactly on a 64 KiB boundary.
+//
+// Documented .idx layout (docs/src/client/local-storage.md): a 0x28-byte header area, then the sorted records (18
+// bytes each), then the update section, which starts at the next 64 KiB boundary. The first record count at which the
+// sorted section ends exactly ON such a boundary is N0 = 25 484 ((0x28 + 18 * N0) % 65536 == 0; further ones every
+// 32 768 records). Histories: N0-1, N0, N0+1 (and N0 + 32 768 - 1.. in thorough) records flushed into the sorted
+// section of one bucket, a few more entries left pending in the update section, save, reopen: a persistent map shows
+// every one of them.
+
+fn run_index_boundary(ctx: &Ctx, kind: &'static str, idx: usize, rng: &mut Rng) -> Result<(), String> {
+    let rt = tokio::runtime::Builder::new_current_thread().enable_all().build().map_err(|e| e.to_string())?;
+    let td = mk_tempdir(idx).map_err(|e| format!("tempdir: {e}"))?;
+    let dir = td.path().to_path_buf();
+    let mut h = Hist { ctx, kind, idx, trace: Vec::new(), stats: Stats::default(), hash: mix64(0xc05b, idx as u64) };
+    h.stats.add(&format!("histories.{kind}"), 1);
+    let n0 = (1usize..).find(|n| (0x28 + 18 * n) % 65536 == 0).unwrap_or(25_484);
+    let n = if idx < 12 { n0 - 1 + idx % 3 } else { n0 + 32_768 - 1 + idx % 3 };
+    let via = ["save_all+load_all", "save_all+load_index", "flush_again+load_all", "save_all+load_all"][(idx / 3) % 4];
+    let b = rng.below(16) as u8;
+    let pending_n = 1 + rng.usize_below(4);
+    h.log(format!("bucket={b} sorted_records={n} (boundary count {n0}) pending={pending_n} via={via}"));
+    h.stats.add(&format!("index-boundary.sorted_records.{}", if n % 32_768 == n0 % 32_768 { "exactly-on-64KiB" } else if n % 32_768 < n0 % 32_768 { "one-below" } else { "one-above" }), 1);
+    let mut im = IndexManager::new(&dir);
+    let mut model: BTreeMap<[u8; 9], Loc> = BTreeMap::new();
+    let mut fresh_key = |i: usize, rng: &mut Rng| {
+        let mut k = [0u8; 9];
+        k[..4].copy_from_slice(&(i as u32 + 1).to_be_bytes());
+        k[4..8].copy_from_slice(&rng.array::<4>());
+        force_bucket(&mut k, b, rng);
+        k
+    };
+    for i in 0..n {
+        let k = fresh_key(i, rng);
+        let loc: Loc = ((i % 1024) as u16, (i as u32).wrapping_mul(4099) & 0x3FFF_FFFF, 1 + (i as u32 % 70_000));
+        im.add_entry(&ekey_for(&k, rng), loc.0, loc.1, loc.2).map_err(|e| format!("add_entry #{i}: {e}"))?;
+        model.insert(k, loc);
+    }
+    im.flush_updates_for_bucket(b).map_err(|e| format!("flush: {e}"))?;
+    h.stats.add("index.ops.add_entry", n as u64);
+    let mut pending: Vec<[u8; 9]> = Vec::new();
+    for j in 0..pending_n {
+        let k = fresh_key(n + j, rng);
+        let loc: Loc = (7, 1000 + j as u32, 99);
+        h.log(format!("add_entry (pending) {} {:?}", hex::encode(k), loc));
+        im.add_entry(&ekey_for(&k, rng), loc.0, loc.1, loc.2).map_err(|e| format!("add_entry pending: {e}"))?;
+        model.insert(k, loc);
+        pending.push(k);
+    }
+    if via == "flush_again+load_all" {
+        im.flush_updates_for_bucket(b).map_err(|e| format!("flush: {e}"))?;
+    }
+    im.save_all().map_err(|e| format!("save_all: {e}"))?;
+    drop(im);
+    let mut fresh = IndexManager::new(&dir);
+    let res = if via == "save_all+load_index" {
+        let mut files: Vec<(u8, std::path::PathBuf)> = Vec::new();
+        if let Ok(rd) = std::fs::read_dir(&dir) {
+            for e in rd.flatten() {
+                let name = e.file_name().to_string_lossy().to_string();
+                if name.len() == 14 && name.ends_with(".idx") {
+                    if let Ok(bb) = u8::from_str_radix(&name[..2], 16) {
+                        files.push((bb, e.path()));
+                    }
+                }
+            }
+        }
+        files.into_iter().try_for_each(|(bb, p)| fresh.load_index(bb, &p))
+    } else {
+        rt.block_on(fresh.load_all())
+    };
+    if let Err(e) = res {
+        h.violation("C05|reload|load-error|sorted-section-at-64KiB-boundary".to_string(), "a fresh IndexManager could not load the files written by save_all", json!({"error": e.to_string(), "sorted_records": n}));
+        ctx.eval_nontrivial(h.hash);
+        h.stats.flush(ctx);
+        return Ok(());
+    }
+    let cond = if n % 32_768 == n0 % 32_768 { "sorted-section-ends-on-64KiB-boundary" } else { "sorted-section-next-to-64KiB-boundary" };
+    let mut check = |h: &mut Hist<'_>, k: &[u8; 9], what: &str, rng: &mut Rng| {
+        let want = model[k];
+        match fresh.lookup(&ekey_for(k, rng)) {
+            Some(g) if g.key == *k && (g.archive_id(), g.archive_offset(), g.size) == want => {}
+            Some(g) => h.violation(format!("C05|lookup|stale-or-wrong-location|after-reload|{what}|{cond}"), "after save and reload a lookup returns another location than the one stored", json!({"key": hex::encode(k), "expected": want, "got": (g.archive_id(), g.archive_offset(), g.size)})),
+            None => h.violation(format!("C05|lookup|present-key-missing|after-reload|{what}|{cond}"), "an entry that was added before save_all is gone after reload", json!({"key": hex::encode(k), "expected": want, "sorted_records": n})),
+        }
+    };
+    for k in &pending {
+        check(&mut h, k, "entry-pending-in-update-section", rng);
+    }
+    let keys: Vec<[u8; 9]> = model.keys().copied().collect();
+    for _ in 0..300 {
+        let k = *rng.pick(&keys);
+        if !pending.contains(&k) {
+            check(&mut h, &k, "entry-in-sorted-section", rng);
+        }
+    }
+    for k in [keys[0], keys[keys.len() - 1], keys[keys.len() / 2]] {
+        if !pending.contains(&k) {
+            check(&mut h, &k, "entry-in-sorted-section", rng);
+        }
+    }
+    let listed = fresh.iter_entries().count();
+    if listed != model.len() {
+        h.violation(format!("C05|iter_entries|count-differs-from-model|after-reload|{cond}"), "after save and reload the index enumerates another number of entries than were added", json!({"listed": listed, "model": model.len()}));
+    }
+    h.stats.add("index-boundary.lookups_after_reload", 303 + pending.len() as u64);
+    ctx.eval_nontrivial(h.hash);
+    h.stats.flush(ctx);
+    Ok(())
+}
+
+// ===========================================================================
 
 fn run_one(ctx: &Ctx, kind: &'static str, idx: usize) {
     let stream = 50_000 + (KINDS.iter().position(|k| *k == kind).unwrap_or(0) as u64) * 10_000_000 + idx as u64;
@@ -1834,6 +1945,7 @@ fn run_one(ctx: &Ctx, kind: &'static str, idx: usize) {
         "index-short" | "index-long" => run_index(ctx, kind, idx, &mut rng),
         "update-section" => run_update_section(ctx, kind, idx, &mut rng),
         "dynamic-container" => run_dyncontainer(ctx, kind, idx, &mut rng),
+        "index-boundary" => run_index_boundary(ctx, kind, idx, &mut rng),
         _ => run_residency(ctx, kind, idx, &mut rng),
     }));
     match res {
@@ -1922,7 +2034,8 @@ fn main() {
     }
 
     // budgets per kind (quick, thorough), longest first
-    let budgets: [(&'static str, usize); 7] = [
+    let budgets: [(&'static str, usize); 8] = [
+        ("index-boundary", ctx.pick(6, 24)),
         ("index-long", ctx.pick(64, 600)),
         ("residency-batch", ctx.pick(12, 120)),
         ("index-short", ctx.pick(1500, 20_000)),
